@@ -59,6 +59,29 @@ pub fn peek_last_obs() -> Option<String> {
     LOG.with(|l| l.borrow().iter().rev().find(|x| x.starts_with("OBS ")).cloned())
 }
 
+/// The observation of the most recent executed op whose line starts with `prefix` (e.g. "OP h0 tcp_cpoll s2").
+pub fn last_obs_of(prefix: &str) -> Option<String> {
+    LOG.with(|l| {
+        let l = l.borrow();
+        let mut i = l.len();
+        while i > 0 {
+            i -= 1;
+            if l[i].starts_with(prefix) {
+                for j in i + 1..l.len() {
+                    if l[j].starts_with("OBS ") {
+                        return Some(l[j][4..].to_string());
+                    }
+                    if l[j].starts_with("OP h") || l[j].starts_with("OP ctl") && !l[j].starts_with("OP ctl q") {
+                        break;
+                    }
+                }
+                return None;
+            }
+        }
+        None
+    })
+}
+
 pub fn log_len() -> usize {
     LOG.with(|l| l.borrow().len())
 }
